@@ -24,13 +24,15 @@ OpenCells == {[m |-> "open", msg |-> x, signer |-> s, hole |-> h] : x \in OpenMs
 KillCells == {[m |-> "kill", adm |-> a, sender |-> s] : a \in AdminStates, s \in KillSenders}
 
 ExecRows    == {r \in Rows : r.exec}
-ProdsOf(r)  == IF r.pk = "vault" /\ r.px = IO THEN {"oracle", "fixed"} ELSE {"na"}
+ProdsOf(r)  == IF r.pk = "vault" /\ r.px = IO THEN {"oracle", "fixed"} ELSE IF r.id \in CrossRows THEN {"na", "cross"} ELSE {"na"}
 RolesOf(r)  == IF r.pk \in {"vault", "borrow", "extliq", "bid"} THEN IO ELSE IF r.pk \in {"lend", "stable"} THEN I ELSE {}
 (* rows outside the vault / locker / lend handlers are only constrained by the price clause: no breaker / shutdown axis *)
 PriceOnly(r) == r.pk \in {"extliq", "bid"}
 CtlCells  == {[m |-> "ctl", h |-> r.id, app |-> r.app, prod |-> p, breaker |-> b, esm |-> e, off |-> o, pm |-> pm] :
-                 r \in ExecRows, p \in Products, b \in BOOLEAN, e \in EsmStates, o \in SUBSET IO, pm \in PriceModes}
-CtlCellsOK == {c \in CtlCells : c.prod \in ProdsOf(Row(c.h)) /\ c.off \subseteq RolesOf(Row(c.h)) /\ (c.pm = "na" <=> c.off = {})
+                 r \in ExecRows, p \in Products, b \in BOOLEAN, e \in EsmStates, o \in SUBSET Roles4, pm \in PriceModes}
+(* a cross-pool position has four price roles: each is switched off separately *)
+OffOK(c) == IF c.prod = "cross" THEN c.off \subseteq Roles4 /\ Cardinality(c.off) <= 1 ELSE c.off \subseteq RolesOf(Row(c.h))
+CtlCellsOK == {c \in CtlCells : c.prod \in ProdsOf(Row(c.h)) /\ OffOK(c) /\ (c.pm = "na" <=> c.off = {})
                                  /\ (PriceOnly(Row(c.h)) => ~c.breaker /\ c.esm = "off")}
 HookCells == {[m |-> "hook", hook |-> h, app |-> HookApp(h), breaker |-> b, esm |-> e, off |-> o, pm |-> pm] :
                  h \in Hooks, b \in BOOLEAN, e \in EsmStates, o \in SUBSET I, pm \in PriceModes}
